@@ -12,6 +12,7 @@
       6  the interface laws as lemmas of the callee models where such a model exists
          (L1-L3: Model/Farm.v, L6: Model/Pair.v, L7: Model/SafePrice.v + C13) *)
 From MX Require Import Base.Prelude Gen.Params Model.MetaStaking.
+From MX Require Model.Farm Proofs.FarmInv Model.Pair Model.SafePrice Proofs.SafePriceProofs.
 
 (** ================================================================== 1. primitives *)
 Lemma aget_aset l k v k' : aget (aset l k v) k' = if k =? k' then v else aget l k'.
@@ -248,3 +249,840 @@ Proof.
   - intros k. unfold sf_bal. simpl. rewrite aget_aset. unfold sf_bal. simpl.
     destruct (d_sfn a =? k) eqn:Ek; [apply Z.eqb_eq in Ek; subst; lia | lia].
 Qed.
+
+(** ================================================================== 2. the backing invariant *)
+(** what one dual-yield nonce still claims from the proxy's balance of farm-token nonce [k] *)
+Definition lp_term (s : st) (k n : Z) (a : dattr) : Z := if d_lpn a =? k then d_lpa a - rel s n else 0.
+Definition sf_term (s : st) (k n : Z) (a : dattr) : Z := if d_sfn a =? k then sup s n else 0.
+Definition lp_claim (s : st) (k : Z) : Z := wsum (lp_term s k) (s_attrs s).
+Definition sf_claim (s : st) (k : Z) : Z := wsum (sf_term s k) (s_attrs s).
+
+(** per nonce: T > 0, L >= 0, outstanding supply within [0, T], released LP-farm amount [r] with
+    r * T <= L * (T - outstanding): what was released is at most the proportional share of what was redeemed *)
+Definition nonce_ok (s : st) (n : Z) (a : dattr) : Prop :=
+  0 < d_sfa a /\ 0 <= d_lpa a /\ 0 <= sup s n <= d_sfa a /\ 0 <= rel s n /\
+  rel s n * d_sfa a <= d_lpa a * (d_sfa a - sup s n).
+
+Record InvB (s : st) : Prop := mkInvB {
+  iv_next : 0 <= s_next s;
+  iv_nodup : NoDup (map fst (s_attrs s));
+  iv_range : forall n a, In (n, a) (s_attrs s) -> 0 < n <= s_next s;
+  iv_fresh : forall n, ~ In n (map fst (s_attrs s)) -> sup s n = 0 /\ rel s n = 0;
+  iv_nonce : forall n a, In (n, a) (s_attrs s) -> nonce_ok s n a;
+  iv_lpf : forall k, lpf_bal s k = lp_claim s k;
+  iv_sf : forall k, sf_bal s k = sf_claim s k
+}.
+
+Definition Inv (s : st) : Prop := InvB s /\ forall t, fbal s t = 0.
+
+(** states that agree on everything [InvB] looks at *)
+Definition same_back (s s' : st) : Prop :=
+  s_attrs s' = s_attrs s /\ s_next s' = s_next s /\ s_sup s' = s_sup s /\ s_rel s' = s_rel s /\
+  (forall k, lpf_bal s' k = lpf_bal s k) /\ (forall k, sf_bal s' k = sf_bal s k).
+
+Lemma same_back_refl s : same_back s s.
+Proof. repeat split. Qed.
+
+Lemma same_back_trans s1 s2 s3 : same_back s1 s2 -> same_back s2 s3 -> same_back s1 s3.
+Proof.
+  intros (A1 & N1 & U1 & R1 & L1 & S1) (A2 & N2 & U2 & R2 & L2 & S2).
+  split; [congruence|]. split; [congruence|]. split; [congruence|]. split; [congruence|].
+  split; intros k; [rewrite L2, L1 | rewrite S2, S1]; reflexivity.
+Qed.
+
+Lemma eq_same_back s s' : eq_dy s s' -> eq_farm s s' -> same_back s s'.
+Proof.
+  intros (A & U & R & O & N) (L & S). repeat split; try assumption; intros k; unfold lpf_bal, sf_bal; congruence.
+Qed.
+
+Lemma credit_f_back s t x : same_back s (credit_f s t x).
+Proof. destruct (credit_f_spec s t x) as (D & F & _). apply eq_same_back; assumption. Qed.
+
+Lemma debit_f_back s t x s' : debit_f s t x = Ok s' -> same_back s s'.
+Proof. intros H. apply debit_f_spec in H. destruct H as (D & F & _). apply eq_same_back; assumption. Qed.
+
+Lemma InvB_ext s s' : same_back s s' -> InvB s -> InvB s'.
+Proof.
+  intros (A & N & U & R & L & S) [I0 I1 I2 I3 I4 I5 I6].
+  assert (Hsup : forall m, sup s' m = sup s m) by (intros; unfold sup; rewrite U; reflexivity).
+  assert (Hrel : forall m, rel s' m = rel s m) by (intros; unfold rel; rewrite R; reflexivity).
+  constructor.
+  - rewrite N. exact I0.
+  - rewrite A. exact I1.
+  - intros n a. rewrite A, N. apply I2.
+  - intros n. rewrite A, Hsup, Hrel. apply I3.
+  - intros n a. rewrite A. intros Hin. unfold nonce_ok. rewrite Hsup, Hrel. apply I4. exact Hin.
+  - intros k. rewrite L, I5. unfold lp_claim. rewrite A. apply wsum_ext. intros n a _. unfold lp_term. rewrite Hrel. reflexivity.
+  - intros k. rewrite S, I6. unfold sf_claim. rewrite A. apply wsum_ext. intros n a _. unfold sf_term. rewrite Hsup. reflexivity.
+Qed.
+
+Lemma nodup_snoc (l : list Z) x : NoDup l -> ~ In x l -> NoDup (l ++ [x]).
+Proof.
+  induction l as [|y t IH]; simpl; intros Hnd Hni.
+  - constructor; [intros [] | constructor].
+  - inversion Hnd as [|? ? Hy Ht]; subst. constructor.
+    + intros Hin. apply in_app_or in Hin. destruct Hin as [Hin|[Heq|[]]]; [contradiction | subst; apply Hni; auto].
+    + apply IH; [exact Ht | intros Hin; apply Hni; auto].
+Qed.
+
+(** redeeming [p] units of nonce [n] keeps the invariant *)
+Lemma release_inv s s' c n p a part : released s s' c n p a part -> InvB s -> InvB s'.
+Proof.
+  intros [Ha Hpt Hp Hh Hs At Nx Su Re Ho Lp Sf Ll Sl Fu] [I0 I1 I2 I3 I4 I5 I6].
+  pose proof (find_attr_in _ _ _ Ha) as Hin.
+  pose proof (dy_part_spec _ _ _ Hpt) as (Pn & Psn & Psa & Pcase).
+  constructor.
+  - rewrite Nx. exact I0.
+  - rewrite At. exact I1.
+  - intros m b. rewrite At, Nx. apply I2.
+  - intros m. rewrite At. intros Hni. rewrite Su, Re.
+    assert (n <> m) by (intros ->; apply Hni; change m with (fst (m, a)); apply in_map; exact Hin).
+    rewrite (proj2 (Z.eqb_neq _ _) H). apply I3. exact Hni.
+  - intros m b. rewrite At. intros Hm. unfold nonce_ok. rewrite Su, Re.
+    destruct (n =? m) eqn:E.
+    + apply Z.eqb_eq in E. subst m.
+      assert (b = a) by (pose proof (in_find_attr _ _ _ I1 Hm) as Hb; rewrite Ha in Hb; inversion Hb; reflexivity). subst b.
+      destruct (I4 n a Hin) as (HT & HL & (Hs0 & HsT) & Hr0 & Hr).
+      destruct Pcase as [[Hfull HLp] | (Hne & Hnz & HLp & Hpnz)].
+      * (* whole supply redeemed at once: nothing was released before *)
+        rewrite HLp. assert (sup s n = d_sfa a) by lia. assert (rel s n = 0) by nia.
+        repeat split; try lia; nia.
+      * set (q := d_lpa a * p / d_sfa a) in *.
+        assert (Hq1 : q * d_sfa a <= d_lpa a * p) by (apply div_lo; lia).
+        assert (Hq0 : 0 <= q) by (apply div_nonneg; [nia | lia]).
+        clearbody q. rewrite HLp. repeat split; try lia; nia.
+    + apply I4. exact Hm.
+  - intros k. rewrite Lp, I5. unfold lp_claim. rewrite At. symmetry.
+    apply (wsum_change (lp_term s k) (lp_term s' k) (s_attrs s) n a); [exact I1 | exact Hin | |].
+    + unfold lp_term. rewrite Re, Z.eqb_refl. destruct (d_lpn a =? k); lia.
+    + intros m b _ Hne. unfold lp_term. rewrite Re. rewrite (proj2 (Z.eqb_neq n m)) by congruence. reflexivity.
+  - intros k. rewrite Sf, I6. unfold sf_claim. rewrite At. symmetry.
+    apply (wsum_change (sf_term s k) (sf_term s' k) (s_attrs s) n a); [exact I1 | exact Hin | |].
+    + unfold sf_term. rewrite Su, Z.eqb_refl. destruct (d_sfn a =? k); lia.
+    + intros m b _ Hne. unfold sf_term. rewrite Su. rewrite (proj2 (Z.eqb_neq n m)) by congruence. reflexivity.
+Qed.
+
+(** creating a nonce whose recorded farm tokens are credited keeps the invariant *)
+Lemma mint_inv s s' c a n : minted s s' c a n -> 0 <= d_lpa a -> InvB s -> InvB s'.
+Proof.
+  intros [HT Hn At Nx Su Re Ho Lp Sf Fu] HL [I0 I1 I2 I3 I4 I5 I6].
+  assert (Hfresh : ~ In n (map fst (s_attrs s))).
+  { intros Hin. apply in_map_iff in Hin. destruct Hin as ([m b] & Hm & Hin). simpl in Hm. subst m.
+    apply I2 in Hin. lia. }
+  destruct (I3 n Hfresh) as [Hs0 Hr0].
+  assert (Hne : forall m b, In (m, b) (s_attrs s) -> n <> m).
+  { intros m b Hin ->. apply Hfresh. change m with (fst (m, b)). apply in_map. exact Hin. }
+  constructor.
+  - rewrite Nx. lia.
+  - rewrite At, map_app. simpl. apply nodup_snoc; assumption.
+  - intros m b. rewrite At, Nx. intros Hin. apply in_app_or in Hin. destruct Hin as [Hin|[Heq|[]]].
+    + apply I2 in Hin. lia.
+    + inversion Heq; subst. lia.
+  - intros m. rewrite At, map_app. simpl. intros Hni. rewrite Su, Re.
+    assert (n <> m) by (intros ->; apply Hni; apply in_or_app; right; simpl; auto).
+    rewrite (proj2 (Z.eqb_neq _ _) H). apply I3. intros Hin. apply Hni. apply in_or_app. auto.
+  - intros m b. rewrite At. intros Hin. unfold nonce_ok. rewrite Su, Re. apply in_app_or in Hin. destruct Hin as [Hin|[Heq|[]]].
+    + rewrite (proj2 (Z.eqb_neq _ _) (Hne m b Hin)). apply I4. exact Hin.
+    + inversion Heq; subst m b. rewrite Z.eqb_refl, Hs0, Hr0. repeat split; lia.
+  - intros k. rewrite Lp, I5. unfold lp_claim. rewrite At, wsum_app. simpl.
+    rewrite (wsum_ext (lp_term s' k) (lp_term s k) (s_attrs s)) by (intros; unfold lp_term; rewrite Re; reflexivity).
+    unfold lp_term at 3. rewrite Re, Hr0. destruct (d_lpn a =? k); lia.
+  - intros k. rewrite Sf, I6. unfold sf_claim. rewrite At, wsum_app. simpl.
+    rewrite (wsum_ext (sf_term s' k) (sf_term s k) (s_attrs s)).
+    + unfold sf_term at 3. rewrite Su, Z.eqb_refl, Hs0. destruct (d_sfn a =? k); lia.
+    + intros m b Hin. unfold sf_term. rewrite Su. rewrite (proj2 (Z.eqb_neq _ _) (Hne m b Hin)). reflexivity.
+Qed.
+
+(** ------------------------------------------------------------------ the endpoints, decomposed *)
+Definition part_of_pay (s : st) (p : pay) (part : dattr) : Prop :=
+  exists a, find_attr (s_attrs s) (p_nonce p) = Some a /\ dy_part a (p_amt p) = Ok part.
+
+Lemma release_all_spec ps : forall s c s' parts, release_all s c ps = Ok (s', parts) ->
+  (InvB s -> InvB s') /\ s_attrs s' = s_attrs s /\ s_fung s' = s_fung s /\ Forall2 (part_of_pay s) ps parts.
+Proof.
+  induction ps as [|p t IH]; intros s c s' parts H; simpl in H.
+  - inversion H; subst. split; [auto|]. split; [reflexivity|]. split; [reflexivity|]. constructor.
+  - apply bind_ok in H. destruct H as ([s1 part] & H1 & H).
+    apply bind_ok in H. destruct H as ([s2 parts'] & H2 & H). inversion H; subst. clear H.
+    apply release_spec in H1. destruct H1 as (a & R).
+    destruct (IH _ _ _ _ H2) as (Hinv & Hat & Hfu & Hall).
+    split; [|split; [|split]].
+    + intros I. apply Hinv. eapply release_inv; eassumption.
+    + rewrite Hat. apply (rl_attrs _ _ _ _ _ _ _ R).
+    + rewrite Hfu. apply (rl_fung _ _ _ _ _ _ _ R).
+    + constructor.
+      * exists a. split; [apply (rl_attr _ _ _ _ _ _ _ R) | apply (rl_part _ _ _ _ _ _ _ R)].
+      * clear - Hall R. induction Hall as [|q pt l l' (b & Hb & Hpt) _ IHl]; constructor; [|exact IHl].
+        exists b. rewrite <- (rl_attrs _ _ _ _ _ _ _ R). auto.
+Qed.
+
+Definition sf_toks (parts : list dattr) : list (Z * Z) := map (fun p => (d_sfn p, d_sfa p)) parts.
+Definition lp_toks (parts : list dattr) : list (Z * Z) := map (fun p => (d_lpn p, d_lpa p)) parts.
+
+(** what a successful stakeFarmTokens is made of *)
+Definition merged_attr (k a : Z) (adds : list pay) (e : env_stake) : dattr :=
+  match adds with
+  | [] => mkDA k a (es_sfn e) (es_sfa e)
+  | _ => mkDA (es_lpn e) (es_lpa e) (es_sfn e) (es_sfa e)
+  end.
+Definition merged_bl (adds : list pay) (e : env_stake) : Z := match adds with [] => 0 | _ => es_bl e end.
+
+Record staked (s s' : st) (c : Z) (pays : list pay) (e : env_stake) (o : outs) (cs : list call)
+  (k a : Z) (adds : list pay) (s1 s3 s4 : st) (parts : list dattr) (v ot oa n : Z) : Prop := mkStaked {
+  sk_pays : pays = (TK_LPF, k, a) :: adds;
+  sk_apos : 0 < a;
+  sk_rel : release_all s c adds = Ok (s1, parts);
+  sk_pick : pick_staking (es_sp e) = Ok (v, ot, oa);
+  sk_b13 : same_back s1 s3;
+  sk_mint : minted s3 s4 c (merged_attr k a adds e) n;
+  sk_b4 : same_back s4 s';
+  sk_hold : s_hold s' = s_hold s4;
+  sk_fung : forall t, fbal s' t = fbal s t;
+  sk_outs : o = [n; es_sfa e; es_bs e; merged_bl adds e];
+  sk_calls : cs = CSafePrice a :: CStkEnter v (sf_toks parts) ::
+                  match adds with [] => [] | _ => [CLpMerge (lp_toks parts ++ [(k, a)])] end
+}.
+
+Lemma fbal_of_fung s s' : s_fung s' = s_fung s -> forall t, fbal s' t = fbal s t.
+Proof. intros H t. unfold fbal. rewrite H. reflexivity. Qed.
+
+Lemma stake_spec s c oc pays e s' o cs : ep_stake s c oc pays e = Ok (s', o, cs) ->
+  exists k a adds s1 s3 s4 parts v ot oa n, staked s s' c pays e o cs k a adds s1 s3 s4 parts v ot oa n.
+Proof.
+  unfold ep_stake. intros H.
+  destruct (orig_caller_ok oc); [|discriminate].
+  destruct pays as [|first adds]; [discriminate|].
+  destruct (forallb (fun p => 0 <? p_amt p) (first :: adds)) eqn:Epos; [|discriminate].
+  destruct (p_tok first =? TK_LPF) eqn:Etok; [|discriminate].
+  destruct (forallb is_dy adds) eqn:Edy; [|discriminate].
+  apply bind_ok in H. destruct H as ([s1 parts] & Hrel & H).
+  destruct (es_fail e); [discriminate|]. simpl negb in H. cbv iota in H.
+  apply bind_ok in H. destruct H as ([[v ot] oa] & Hpick & H).
+  destruct first as [[t0 k] a]. unfold p_tok, p_nonce, p_amt in *. simpl fst in *. simpl snd in *.
+  apply Z.eqb_eq in Etok. subst t0.
+  simpl in Epos. apply andb_prop in Epos. destruct Epos as [Ea _]. apply Z.ltb_lt in Ea.
+  destruct (release_all_spec _ _ _ _ _ Hrel) as (_ & _ & Hfu1 & _).
+  destruct adds as [|ad adds'].
+  - (* no additional tokens: the base LP-farm token is kept *)
+    apply bind_ok in H. destruct H as ([s4 n] & Hmint & H).
+    apply bind_ok in H. destruct H as (s5 & H5 & H).
+    apply bind_ok in H. destruct H as (s6 & H6 & H). inversion H; subst. clear H.
+    apply mint_spec in Hmint.
+    pose proof (debit_f_spec _ _ _ _ H5) as (D5 & F5 & _ & B5).
+    pose proof (debit_f_spec _ _ _ _ H6) as (D6 & F6 & _ & B6).
+    destruct (credit_f_spec s1 TK_STK (es_bs e)) as (_ & _ & C2).
+    exists k, a, [], s1, (credit_f s1 TK_STK (es_bs e)), s4, parts, v, ot, oa, n.
+    refine (mkStaked s _ c _ e _ _ k a [] s1 _ s4 parts v ot oa n
+              eq_refl Ea Hrel Hpick (credit_f_back _ _ _) Hmint _ _ _ eq_refl eq_refl).
+    + eapply same_back_trans; eapply debit_f_back; eassumption.
+    + destruct D5 as (_ & _ & _ & O5 & _). destruct D6 as (_ & _ & _ & O6 & _). congruence.
+    + intros t. rewrite B6, B5. rewrite (fbal_of_fung _ _ (mt_fung _ _ _ _ _ Hmint)). rewrite C2.
+      rewrite (fbal_of_fung _ _ Hfu1). destruct (TK_STK =? t); destruct (TK_REW =? t); lia.
+  - apply bind_ok in H. destruct H as ([s4 n] & Hmint & H).
+    apply bind_ok in H. destruct H as (s5 & H5 & H).
+    apply bind_ok in H. destruct H as (s6 & H6 & H). inversion H; subst. clear H.
+    apply mint_spec in Hmint.
+    pose proof (debit_f_spec _ _ _ _ H5) as (D5 & F5 & _ & B5).
+    pose proof (debit_f_spec _ _ _ _ H6) as (D6 & F6 & _ & B6).
+    destruct (credit_f_spec s1 TK_STK (es_bs e)) as (_ & _ & C2).
+    destruct (credit_f_spec (credit_f s1 TK_STK (es_bs e)) TK_REW (es_bl e)) as (_ & _ & C3).
+    exists k, a, (ad :: adds'), s1, (credit_f (credit_f s1 TK_STK (es_bs e)) TK_REW (es_bl e)), s4, parts, v, ot, oa, n.
+    refine (mkStaked s _ c _ e _ _ k a (ad :: adds') s1 _ s4 parts
+              v ot oa n eq_refl Ea Hrel Hpick _ Hmint _ _ _ eq_refl eq_refl).
+    + eapply same_back_trans; apply credit_f_back.
+    + eapply same_back_trans; eapply debit_f_back; eassumption.
+    + destruct D5 as (_ & _ & _ & O5 & _). destruct D6 as (_ & _ & _ & O6 & _). congruence.
+    + intros t. rewrite B6, B5. rewrite (fbal_of_fung _ _ (mt_fung _ _ _ _ _ Hmint)). rewrite C3, C2.
+      rewrite (fbal_of_fung _ _ Hfu1). destruct (TK_STK =? t); destruct (TK_REW =? t); lia.
+Qed.
+
+Lemma eq_dy_refl s : eq_dy s s.
+Proof. repeat split. Qed.
+Lemma eq_dy_trans s1 s2 s3 : eq_dy s1 s2 -> eq_dy s2 s3 -> eq_dy s1 s3.
+Proof. intros (A1 & U1 & R1 & O1 & N1) (A2 & U2 & R2 & O2 & N2). repeat split; congruence. Qed.
+Lemma eq_farm_trans s1 s2 s3 : eq_farm s1 s2 -> eq_farm s2 s3 -> eq_farm s1 s3.
+Proof. intros (L1 & S1) (L2 & S2). split; congruence. Qed.
+
+(** what a successful claimDualYield is made of *)
+Record claimed (s s' : st) (c : Z) (pays : list pay) (e : env_claim) (o : outs) (cs : list call)
+  (n p : Z) (a part : dattr) (s1 s2 s3 : st) (v ot oa n' : Z) : Prop := mkClaimed {
+  cl_pays : pays = [(TK_DY, n, p)];
+  cl_rel : released s s1 c n p a part;
+  cl_pick : pick_staking (ec_sp e) = Ok (v, ot, oa);
+  cl_b12 : same_back s1 s2;
+  cl_mint : minted s2 s3 c (mkDA (ec_lpn e) (ec_lpa e) (ec_sfn e) (ec_sfa e)) n';
+  cl_b3 : same_back s3 s';
+  cl_hold : s_hold s' = s_hold s3;
+  cl_fung : forall t, fbal s' t = fbal s t;
+  cl_outs : o = [ec_rl e; ec_rs e; n'; ec_sfa e];
+  cl_calls : cs = [CSafePrice (d_lpa part); CLpClaim (d_lpn part) (d_lpa part); CStkClaim (d_sfn part) (d_sfa part) v]
+}.
+
+Lemma claim_spec s c oc pays e s' o cs : ep_claim s c oc pays e = Ok (s', o, cs) ->
+  exists n p a part s1 s2 s3 v ot oa n', claimed s s' c pays e o cs n p a part s1 s2 s3 v ot oa n'.
+Proof.
+  unfold ep_claim. intros H.
+  destruct (orig_caller_ok oc); [|discriminate].
+  destruct pays as [|p0 [|? ?]]; try discriminate.
+  destruct (p_tok p0 =? TK_DY) eqn:Etok; [|discriminate].
+  apply bind_ok in H. destruct H as ([s1 part] & Hrel & H).
+  destruct (ec_fail e); [discriminate|]. simpl negb in H. cbv iota in H.
+  apply bind_ok in H. destruct H as ([[v ot] oa] & Hpick & H).
+  apply bind_ok in H. destruct H as ([s3 n'] & Hmint & H).
+  apply bind_ok in H. destruct H as (s4 & H4 & H).
+  apply bind_ok in H. destruct H as (s5 & H5 & H). inversion H; subst. clear H.
+  destruct p0 as [[t0 n] p]. unfold p_tok, p_nonce, p_amt in *. simpl fst in *. simpl snd in *.
+  apply Z.eqb_eq in Etok. subst t0.
+  apply release_spec in Hrel. destruct Hrel as (a & R).
+  apply mint_spec in Hmint.
+  pose proof (debit_f_spec _ _ _ _ H4) as (D4 & F4 & _ & B4).
+  pose proof (debit_f_spec _ _ _ _ H5) as (D5 & F5 & _ & B5).
+  destruct (credit_f_spec s1 TK_REW (ec_rl e)) as (_ & _ & C1).
+  destruct (credit_f_spec (credit_f s1 TK_REW (ec_rl e)) TK_STK (ec_rs e)) as (_ & _ & C2).
+  exists n, p, a, part, s1, (credit_f (credit_f s1 TK_REW (ec_rl e)) TK_STK (ec_rs e)), s3, v, ot, oa, n'.
+  refine (mkClaimed s _ c _ e _ _ n p a part s1 _ s3 v ot oa n' eq_refl R Hpick _ Hmint _ _ _ eq_refl eq_refl).
+  - eapply same_back_trans; apply credit_f_back.
+  - eapply same_back_trans; eapply debit_f_back; eassumption.
+  - destruct D4 as (_ & _ & _ & O4 & _). destruct D5 as (_ & _ & _ & O5 & _). congruence.
+  - intros t. rewrite B5, B4. rewrite (fbal_of_fung _ _ (mt_fung _ _ _ _ _ Hmint)). rewrite C2, C1.
+    rewrite (fbal_of_fung _ _ (rl_fung _ _ _ _ _ _ _ R)). destruct (TK_STK =? t); destruct (TK_REW =? t); lia.
+Qed.
+
+(** what a successful unstakeFarmTokens is made of *)
+Record unstaked (s s' : st) (c : Z) (pays : list pay) (m1 m2 : Z) (e : env_unstake) (o : outs) (cs : list call)
+  (n p : Z) (a part : dattr) (s1 : st) (stk ot oa : Z) : Prop := mkUnstaked {
+  us_pays : pays = [(TK_DY, n, p)];
+  us_rel : released s s1 c n p a part;
+  us_pick : pick_staking (eu_rm e) = Ok (stk, ot, oa);
+  us_dy : eq_dy s1 s';
+  us_lpf : forall k, lpf_bal s' k = lpf_bal s1 k;
+  us_sf : forall k, sf_bal s' k = sf_bal s1 k;
+  us_fung : forall t, fbal s' t = fbal s t;
+  us_outs : o = [oa; eu_rl e; eu_rs e; eu_ubn e; eu_uba e];
+  us_calls : cs = [CLpExit (d_lpn part) (d_lpa part); CPairRemove (eu_lp e) m1 m2; CStkUnstake stk (d_sfn part) (d_sfa part)]
+}.
+
+Lemma unstake_spec s c oc pays m1 m2 e s' o cs : ep_unstake s c oc pays m1 m2 e = Ok (s', o, cs) ->
+  exists n p a part s1 stk ot oa, unstaked s s' c pays m1 m2 e o cs n p a part s1 stk ot oa.
+Proof.
+  unfold ep_unstake. intros H.
+  destruct (orig_caller_ok oc); [|discriminate].
+  destruct pays as [|p0 [|? ?]]; try discriminate.
+  destruct (p_tok p0 =? TK_DY) eqn:Etok; [|discriminate].
+  apply bind_ok in H. destruct H as ([s1 part] & Hrel & H).
+  destruct (eu_fail e); [discriminate|]. simpl negb in H. cbv iota in H.
+  apply bind_ok in H. destruct H as (s3 & H3 & H).
+  destruct (eu_rm e) as [[[t1 a1] t2] a2] eqn:Erm.
+  apply bind_ok in H. destruct H as ([[stk ot] oa] & Hpick & H).
+  apply bind_ok in H. destruct H as (s5 & H5 & H).
+  apply bind_ok in H. destruct H as (s7 & H7 & H).
+  apply bind_ok in H. destruct H as (s8 & H8 & H).
+  apply bind_ok in H. destruct H as (s9 & H9 & H).
+  apply bind_ok in H. destruct H as (s10 & H10 & H). inversion H; subst. clear H.
+  destruct p0 as [[t0 n] p]. unfold p_tok, p_nonce, p_amt in *. simpl fst in *. simpl snd in *.
+  apply Z.eqb_eq in Etok. subst t0.
+  apply release_spec in Hrel. destruct Hrel as (a & R).
+  set (s2 := credit_f (credit_f s1 TK_LP (eu_lp e)) TK_REW (eu_rl e)) in *.
+  set (s4 := credit_f (credit_f s3 t1 a1) t2 a2) in *.
+  set (s6 := credit_f (credit_sf s5 (eu_ubn e) (eu_uba e)) TK_STK (eu_rs e)) in *.
+  destruct (credit_f_spec s1 TK_LP (eu_lp e)) as (Da & Fa & Ca).
+  destruct (credit_f_spec (credit_f s1 TK_LP (eu_lp e)) TK_REW (eu_rl e)) as (Db & Fb & Cb). fold s2 in Db, Fb, Cb.
+  pose proof (debit_f_spec _ _ _ _ H3) as (D3 & F3 & _ & B3).
+  destruct (credit_f_spec s3 t1 a1) as (Dc & Fc & Cc).
+  destruct (credit_f_spec (credit_f s3 t1 a1) t2 a2) as (Dd & Fd & Cd). fold s4 in Dd, Fd, Cd.
+  pose proof (debit_f_spec _ _ _ _ H5) as (D5 & F5 & _ & B5).
+  destruct (credit_sf_spec s5 (eu_ubn e) (eu_uba e)) as (De & Ge & Le & Se).
+  destruct (credit_f_spec (credit_sf s5 (eu_ubn e) (eu_uba e)) TK_STK (eu_rs e)) as (Df & Ff & Cf). fold s6 in Df, Ff, Cf.
+  pose proof (debit_f_spec _ _ _ _ H7) as (D7 & F7 & _ & B7).
+  pose proof (debit_f_spec _ _ _ _ H8) as (D8 & F8 & _ & B8).
+  pose proof (debit_f_spec _ _ _ _ H9) as (D9 & F9 & _ & B9).
+  pose proof (debit_sf_spec _ _ _ _ H10) as (D10 & G10 & L10 & _ & S10).
+  exists n, p, a, part, s1, stk, ot, oa.
+  refine (mkUnstaked s _ c _ m1 m2 e _ _ n p a part s1 stk ot oa eq_refl R _ _ _ _ _ eq_refl eq_refl).
+  - rewrite Erm. exact Hpick.
+  - repeat (eapply eq_dy_trans; [eassumption|]). apply eq_dy_refl.
+  - intros k. unfold lpf_bal. rewrite L10.
+    destruct F9 as [-> _]. destruct F8 as [-> _]. destruct F7 as [-> _]. destruct Ff as [-> _]. rewrite Le.
+    destruct F5 as [-> _]. destruct Fd as [-> _]. destruct Fc as [-> _]. destruct F3 as [-> _].
+    destruct Fb as [-> _]. destruct Fa as [-> _]. reflexivity.
+  - intros k. rewrite S10. unfold sf_bal at 1.
+    destruct F9 as [_ ->]. destruct F8 as [_ ->]. destruct F7 as [_ ->]. destruct Ff as [_ ->].
+    fold (sf_bal (credit_sf s5 (eu_ubn e) (eu_uba e)) k). rewrite Se. unfold sf_bal.
+    destruct F5 as [_ ->]. destruct Fd as [_ ->]. destruct Fc as [_ ->]. destruct F3 as [_ ->].
+    destruct Fb as [_ ->]. destruct Fa as [_ ->]. lia.
+  - intros t. rewrite (fbal_of_fung _ _ G10). rewrite B9, B8, B7, Cf. rewrite (fbal_of_fung _ _ Ge).
+    rewrite B5, Cd, Cc, B3, Cb, Ca. rewrite (fbal_of_fung _ _ (rl_fung _ _ _ _ _ _ _ R)).
+    unfold pick_staking in Hpick.
+    destruct (t1 =? TK_STK) eqn:E1.
+    + inversion Hpick; subst. apply Z.eqb_eq in E1. subst t1.
+      destruct (TK_STK =? t); destruct (TK_REW =? t); destruct (TK_LP =? t); destruct (ot =? t); lia.
+    + destruct (t2 =? TK_STK) eqn:E2; [|discriminate].
+      inversion Hpick; subst. apply Z.eqb_eq in E2. subst t2.
+      destruct (TK_STK =? t); destruct (TK_REW =? t); destruct (TK_LP =? t); destruct (ot =? t); lia.
+Qed.
+
+(** ------------------------------------------------------------------ every operation keeps [Inv] *)
+Lemma env_nonneg_stake c oc pays e : env_nonneg (Stake c oc pays e) = true -> 0 <= es_lpa e.
+Proof. simpl. intros H. repeat (apply andb_prop in H; destruct H as [H ?]). apply Z.leb_le. assumption. Qed.
+
+Lemma env_nonneg_claim c oc pays e : env_nonneg (Claim c oc pays e) = true -> 0 <= ec_lpa e.
+Proof. simpl. intros H. repeat (apply andb_prop in H; destruct H as [H ?]). apply Z.leb_le. assumption. Qed.
+
+Lemma xfer_back s src dst n amt s' o cs : ep_xfer s src dst n amt = Ok (s', o, cs) ->
+  same_back s s' /\ s_fung s' = s_fung s /\ o = [] /\ cs = [].
+Proof.
+  unfold ep_xfer. destruct (0 <? amt); [|discriminate]. intros H.
+  apply bind_ok in H. destruct H as (h & _ & H). inversion H; subst. repeat split.
+Qed.
+
+Lemma step_inv s op s' o cs : step s op = Ok (s', o, cs) -> env_nonneg op = true -> Inv s -> Inv s'.
+Proof.
+  intros H Hnn [IB IF]. destruct op as [c oc pays e | c oc pays e | c oc pays m1 m2 e | src dst n amt]; simpl in H.
+  - apply stake_spec in H. destruct H as (k & a & adds & s1 & s3 & s4 & parts & v & ot & oa & n & K).
+    destruct K as [Kp Ka Krel Kpick K13 Kmint K4 Kh Kf Ko Kc].
+    destruct (release_all_spec _ _ _ _ _ Krel) as (Hinv & _).
+    split; [|intros t; rewrite Kf; apply IF].
+    eapply InvB_ext; [exact K4|]. eapply mint_inv; [exact Kmint | | eapply InvB_ext; [exact K13 | auto]].
+    unfold merged_attr. destruct adds; simpl; [lia | eapply env_nonneg_stake; eassumption].
+  - apply claim_spec in H. destruct H as (n & p & a & part & s1 & s2 & s3 & v & ot & oa & n' & K).
+    destruct K as [Kp Krel Kpick K12 Kmint K3 Kh Kf Ko Kc].
+    split; [|intros t; rewrite Kf; apply IF].
+    eapply InvB_ext; [exact K3|]. eapply mint_inv; [exact Kmint | simpl; eapply env_nonneg_claim; eassumption |].
+    eapply InvB_ext; [exact K12|]. eapply release_inv; eassumption.
+  - apply unstake_spec in H. destruct H as (n & p & a & part & s1 & stk & ot & oa & K).
+    destruct K as [Kp Krel Kpick Kdy Kl Ks Kf Ko Kc].
+    split; [|intros t; rewrite Kf; apply IF].
+    eapply InvB_ext; [|eapply release_inv; eassumption].
+    destruct Kdy as (A & U & R & O & N). repeat split; assumption.
+  - apply xfer_back in H. destruct H as (B & F & _ & _).
+    split; [eapply InvB_ext; eassumption | intros t; rewrite (fbal_of_fung _ _ F); apply IF].
+Qed.
+
+Lemma init_inv : Inv init_st.
+Proof.
+  split; [|reflexivity]. constructor; simpl.
+  - lia.
+  - constructor.
+  - intros n a [].
+  - intros n _. split; reflexivity.
+  - intros n a [].
+  - reflexivity.
+  - reflexivity.
+Qed.
+
+Definition wf_ops (ops : list mop) : Prop := Forall (fun op => env_nonneg op = true) ops.
+
+Lemma step_total_inv s op : env_nonneg op = true -> Inv s -> Inv (step_total s op).
+Proof.
+  intros Hnn I. unfold step_total. destruct (step s op) as [[[s' o] cs]|] eqn:E; [|exact I].
+  eapply step_inv; eassumption.
+Qed.
+
+Lemma run_inv ops : forall s, wf_ops ops -> Inv s -> Inv (run s ops).
+Proof.
+  induction ops as [|op t IH]; intros s Hwf I; simpl; [exact I|].
+  inversion Hwf; subst. apply IH; [assumption|]. apply step_total_inv; assumption.
+Qed.
+
+(** C15_backed.  Over every history and every environment (only non-negative amounts assumed):
+    (1) the proxy's balance of every LP-farm nonce is exactly what the dual-yield nonces recording it
+        have not yet released, and of every staking-farm nonce exactly the outstanding supply of the
+        dual-yield nonces recording it;
+    (2) hence, for each nonce, the proxy holds at least the staking-farm tokens of its outstanding
+        supply and at least its unreleased LP-farm tokens;
+    (3) the unreleased LP-farm tokens cover the part of ANY redemption the holders can still make;
+    (4) it holds no other token. *)
+Definition claimable (a : dattr) (x : Z) : Z := if x =? d_sfa a then d_lpa a else d_lpa a * x / d_sfa a.
+
+Lemma nonce_ok_claimable s n a x : nonce_ok s n a -> 0 <= x <= sup s n -> claimable a x <= d_lpa a - rel s n.
+Proof.
+  intros (HT & HL & (Hs0 & HsT) & Hr0 & Hr) Hx. unfold claimable.
+  destruct (x =? d_sfa a) eqn:E.
+  - apply Z.eqb_eq in E. assert (sup s n = d_sfa a) by lia. assert (rel s n = 0) by nia. lia.
+  - set (q := d_lpa a * x / d_sfa a).
+    assert (Hq : q * d_sfa a <= d_lpa a * x) by (apply div_lo; lia).
+    clearbody q.
+    (* (q + rel) * T <= L*x + L*(T - sup) <= L*T *)
+    assert ((q + rel s n) * d_sfa a <= d_lpa a * d_sfa a) by nia.
+    nia.
+Qed.
+
+Theorem backed_run ops : wf_ops ops ->
+  let s := run init_st ops in
+  (forall k, lpf_bal s k = lp_claim s k) /\
+  (forall k, sf_bal s k = sf_claim s k) /\
+  (forall n a, In (n, a) (s_attrs s) ->
+     nonce_ok s n a /\
+     sup s n <= sf_bal s (d_sfn a) /\
+     d_lpa a - rel s n <= lpf_bal s (d_lpn a) /\
+     (forall x, 0 <= x <= sup s n -> claimable a x <= lpf_bal s (d_lpn a))) /\
+  (forall t, fbal s t = 0).
+Proof.
+  intros Hwf s. destruct (run_inv ops init_st Hwf init_inv) as [[I0 I1 I2 I3 I4 I5 I6] IF]. fold s in I0, I1, I2, I3, I4, I5, I6, IF.
+  split; [exact I5|]. split; [exact I6|]. split; [|exact IF].
+  intros n a Hin. pose proof (I4 n a Hin) as Hok.
+  assert (Hsf : sup s n <= sf_bal s (d_sfn a)).
+  { rewrite I6. unfold sf_claim.
+    pose proof (wsum_ge_term (sf_term s (d_sfn a)) (s_attrs s) n a) as H. unfold sf_term at 2 in H. rewrite Z.eqb_refl in H.
+    apply H; [|exact Hin]. intros m b Hm. unfold sf_term. destruct (d_sfn b =? d_sfn a); [|lia].
+    destruct (I4 m b Hm) as (_ & _ & (? & _) & _). assumption. }
+  assert (Hlp : d_lpa a - rel s n <= lpf_bal s (d_lpn a)).
+  { rewrite I5. unfold lp_claim.
+    pose proof (wsum_ge_term (lp_term s (d_lpn a)) (s_attrs s) n a) as H. unfold lp_term at 2 in H. rewrite Z.eqb_refl in H.
+    apply H; [|exact Hin]. intros m b Hm. unfold lp_term. destruct (d_lpn b =? d_lpn a); [|lia].
+    destruct (I4 m b Hm) as (HT & HL & (Hs0 & HsT) & Hr0 & Hr). nia. }
+  split; [exact Hok|]. split; [exact Hsf|]. split; [exact Hlp|].
+  intros x Hx. pose proof (nonce_ok_claimable s n a x Hok Hx). lia.
+Qed.
+
+(** ================================================================== 3. parts *)
+(** into_part of the dual-yield attributes against the documented rule: the staking-farm part is
+    the payment amount, the LP-farm part is the floor of the proportional share (cross-multiplied
+    bounds), the whole when the whole supply is paid, and "Zero amount" exactly when the floor is 0 *)
+Theorem dy_part_char a p : 0 < d_sfa a -> 0 <= d_lpa a -> 0 < p ->
+  match dy_part a p with
+  | Ok part => d_lpn part = d_lpn a /\ d_sfn part = d_sfn a /\ d_sfa part = p /\
+               (p = d_sfa a -> d_lpa part = d_lpa a) /\
+               (p <> d_sfa a -> 0 < d_lpa part /\
+                                d_lpa part * d_sfa a <= d_lpa a * p < d_lpa part * d_sfa a + d_sfa a)
+  | Err _ => p <> d_sfa a /\ d_lpa a * p < d_sfa a
+  end.
+Proof.
+  intros HT HL Hp. destruct (dy_part a p) as [part|er] eqn:E.
+  - pose proof (dy_part_spec _ _ _ E) as (Pn & Psn & Psa & Pcase).
+    split; [exact Pn|]. split; [exact Psn|]. split; [exact Psa|].
+    destruct Pcase as [[Hfull HLp] | (Hne & Hnz & HLp & Hpnz)].
+    + split; [intros _; exact HLp | intros; contradiction].
+    + split; [intros; contradiction | intros _].
+      pose proof (div_lo (d_lpa a * p) (d_sfa a) HT). pose proof (div_hi (d_lpa a * p) (d_sfa a) HT).
+      assert (0 <= d_lpa a * p / d_sfa a) by (apply div_nonneg; [nia | lia]).
+      rewrite HLp in *. lia.
+  - unfold dy_part in E. destruct (p =? d_sfa a) eqn:Ep; [discriminate|]. apply Z.eqb_neq in Ep.
+    split; [exact Ep|].
+    unfold rule3_nz in E. rewrite (proj2 (Z.eqb_neq _ _) Ep) in E. unfold div_chk in E.
+    rewrite (proj2 (Z.eqb_neq (d_sfa a) 0)) in E by lia. simpl in E.
+    destruct (d_lpa a * p / d_sfa a =? 0) eqn:Ez; simpl in E; [|discriminate].
+    apply Z.eqb_eq in Ez. pose proof (div_hi (d_lpa a * p) (d_sfa a) HT). lia.
+Qed.
+
+(** any sequence of partial redemptions of at most the whole supply releases at most the whole *)
+Definition zsum (l : list Z) : Z := fold_right Z.add 0 l.
+Definition floor_parts (L T : Z) (ps : list Z) : Z := fold_right (fun p acc => L * p / T + acc) 0 ps.
+
+Lemma floor_parts_le L T ps : 0 <= L -> 0 < T -> Forall (fun p => 0 <= p) ps -> zsum ps <= T ->
+  0 <= floor_parts L T ps <= L.
+Proof.
+  intros HL HT Hps Hsum.
+  assert (H : 0 <= floor_parts L T ps /\ floor_parts L T ps * T <= L * zsum ps /\ 0 <= zsum ps).
+  { clear Hsum. induction ps as [|p t IH]; simpl; [lia|].
+    inversion Hps; subst. destruct (IH H2) as (I0 & I1 & I2).
+    pose proof (div_lo (L * p) T HT). assert (0 <= L * p / T) by (apply div_nonneg; [nia | lia]).
+    set (q := L * p / T) in *. clearbody q. repeat split; nia. }
+  destruct H as (H0 & H1 & H2). split; [exact H0|]. nia.
+Qed.
+
+(** over every history: per nonce, the LP-farm amount released so far is within [0, L], the
+    staking-farm amount released (T - outstanding) within [0, T], and the LP-farm amount released is
+    at most the proportional share of the staking-farm amount redeemed *)
+Theorem parts_run ops : wf_ops ops ->
+  let s := run init_st ops in
+  forall n a, In (n, a) (s_attrs s) ->
+    0 <= rel s n <= d_lpa a /\ 0 <= d_sfa a - sup s n <= d_sfa a /\
+    rel s n * d_sfa a <= d_lpa a * (d_sfa a - sup s n).
+Proof.
+  intros Hwf s n a Hin. destruct (backed_run ops Hwf) as (_ & _ & H & _). fold s in H.
+  destruct (H n a Hin) as ((HT & HL & (Hs0 & HsT) & Hr0 & Hr) & _). repeat split; try lia; nia.
+Qed.
+
+(** every redemption moves the ghost [rel] by exactly the LP-farm tokens that leave the proxy *)
+Lemma release_moves s s' c n p a part : released s s' c n p a part ->
+  rel s' n - rel s n = d_lpa part /\
+  lpf_bal s (d_lpn a) - lpf_bal s' (d_lpn a) = d_lpa part /\
+  sf_bal s (d_sfn a) - sf_bal s' (d_sfn a) = p /\ sup s n - sup s' n = p.
+Proof.
+  intros R. rewrite (rl_rel _ _ _ _ _ _ _ R), (rl_lpf _ _ _ _ _ _ _ R), (rl_sf _ _ _ _ _ _ _ R), (rl_sup _ _ _ _ _ _ _ R).
+  rewrite !Z.eqb_refl. lia.
+Qed.
+
+(** ================================================================== 4. unstake *)
+(** C15_unstake.  A successful unstakeFarmTokens of [p] units of nonce [n]:
+    - sends the recorded part to the LP farm, the LP tokens it got to the pair, and the staking-token
+      side [stk] of the pair's answer together with the staking-farm part to the staking farm;
+    - returns [other pool token amount of the pair's answer; LP-farm rewards; staking rewards;
+      unbond token] exactly as answered; under L5 the unbond amount is [stk]; under L6 the token
+      returned first is the other pool token;
+    - proxy ledger: every fungible balance is unchanged, the LP-farm balance drops by the released
+      part and the staking-farm balance by [p] at the recorded nonces and nowhere else (the unbond
+      token passes through), the dual-yield units are burned. *)
+Theorem unstake_char s c oc n p m1 m2 e s' o cs :
+  step s (Unstake c oc [(TK_DY, n, p)] m1 m2 e) = Ok (s', o, cs) ->
+  exists a part stk ot oa,
+    find_attr (s_attrs s) n = Some a /\ dy_part a p = Ok part /\
+    pick_staking (eu_rm e) = Ok (stk, ot, oa) /\
+    o = [oa; eu_rl e; eu_rs e; eu_ubn e; eu_uba e] /\
+    cs = [CLpExit (d_lpn a) (d_lpa part); CPairRemove (eu_lp e) m1 m2; CStkUnstake stk (d_sfn a) p] /\
+    (law_L5 stk e = true -> eu_uba e = stk) /\
+    (law_L6 (eu_rm e) = true -> ot = TK_OTH) /\
+    (forall t, fbal s' t = fbal s t) /\
+    (forall k, lpf_bal s' k = lpf_bal s k - (if d_lpn a =? k then d_lpa part else 0)) /\
+    (forall k, sf_bal s' k = sf_bal s k - (if d_sfn a =? k then p else 0)) /\
+    s_attrs s' = s_attrs s /\ sup s' n = sup s n - p /\ hold s' n c = hold s n c - p.
+Proof.
+  simpl. intros H. apply unstake_spec in H. destruct H as (n0 & p0 & a & part & s1 & stk & ot & oa & K).
+  destruct K as [Kp R Kpick Kdy Kl Ks Kf Ko Kc]. inversion Kp; subst n0 p0. clear Kp.
+  pose proof (dy_part_spec _ _ _ (rl_part _ _ _ _ _ _ _ R)) as (Pn & Psn & Psa & _).
+  destruct Kdy as (A & U & Rl & O & N).
+  exists a, part, stk, ot, oa.
+  split; [apply (rl_attr _ _ _ _ _ _ _ R)|]. split; [apply (rl_part _ _ _ _ _ _ _ R)|]. split; [exact Kpick|].
+  split; [exact Ko|]. split; [rewrite Kc, Pn, Psn, Psa; reflexivity|].
+  split; [unfold law_L5; intros HL; apply Z.eqb_eq in HL; exact HL|].
+  split.
+  { unfold pick_staking in Kpick. unfold law_L6. destruct (eu_rm e) as [[[t1 a1] t2] a2]. intros HL.
+    simpl in HL.
+    assert (Hc : (t1 = TK_STK /\ t2 = TK_OTH) \/ (t1 = TK_OTH /\ t2 = TK_STK)).
+    { apply orb_prop in HL. destruct HL as [HL|HL]; apply andb_prop in HL; destruct HL as [Ha Hb];
+        apply Z.eqb_eq in Ha, Hb; auto. }
+    clear HL. destruct (t1 =? TK_STK) eqn:E1.
+    - inversion Kpick; subst. apply Z.eqb_eq in E1.
+      destruct Hc as [[_ Hb]|[Ha _]]; [exact Hb | unfold TK_OTH, TK_STK in *; lia].
+    - destruct (t2 =? TK_STK) eqn:E2; [|discriminate]. inversion Kpick; subst. apply Z.eqb_neq in E1.
+      destruct Hc as [[Ha _]|[Ha _]]; [contradiction | exact Ha]. }
+  split; [exact Kf|].
+  split; [intros k; rewrite Kl; apply (rl_lpf _ _ _ _ _ _ _ R)|].
+  split; [intros k; rewrite Ks; apply (rl_sf _ _ _ _ _ _ _ R)|].
+  split; [rewrite A; apply (rl_attrs _ _ _ _ _ _ _ R)|].
+  split.
+  - unfold sup at 1. rewrite U. fold (sup s1 n). rewrite (rl_sup _ _ _ _ _ _ _ R), Z.eqb_refl. reflexivity.
+  - unfold hold at 1. rewrite O. rewrite (rl_hold _ _ _ _ _ _ _ R), Z.eqb_refl. reflexivity.
+Qed.
+
+(** no operation leaves anything in the proxy but the recorded farm tokens: every fungible balance of
+    the proxy is the same before and after ANY successful operation (all environments) *)
+Theorem no_user_funds_step s op s' o cs : step s op = Ok (s', o, cs) -> forall t, fbal s' t = fbal s t.
+Proof.
+  intros H. destruct op as [c oc pays e | c oc pays e | c oc pays m1 m2 e | src dst n amt]; simpl in H.
+  - apply stake_spec in H. destruct H as (k & a & adds & s1 & s3 & s4 & parts & v & ot & oa & n & K). apply (sk_fung _ _ _ _ _ _ _ _ _ _ _ _ _ _ _ _ _ _ K).
+  - apply claim_spec in H. destruct H as (n & p & a & part & s1 & s2 & s3 & v & ot & oa & n' & K). apply (cl_fung _ _ _ _ _ _ _ _ _ _ _ _ _ _ _ _ _ _ K).
+  - apply unstake_spec in H. destruct H as (n & p & a & part & s1 & stk & ot & oa & K). apply (us_fung _ _ _ _ _ _ _ _ _ _ _ _ _ _ _ _ _ K).
+  - apply xfer_back in H. destruct H as (_ & F & _). apply fbal_of_fung. exact F.
+Qed.
+
+(** ================================================================== 5. safe price *)
+(** C15_safe (stake).  A successful stakeFarmTokens asks the pair for the SAFE price of exactly the
+    LP amount [a] of the LP-farm position (the only price query it makes), and the value it passes to
+    stakeFarmThroughProxy is the staking-token side [v] of that answer: [registered cs = v].  Under L3
+    the dual-yield token records and is issued for v + the merged staking parts. *)
+Theorem stake_safe s c oc pays e s' o cs :
+  step s (Stake c oc pays e) = Ok (s', o, cs) ->
+  exists k a adds parts v ot oa n new rest,
+    pays = (TK_LPF, k, a) :: adds /\ Forall2 (part_of_pay s) adds parts /\
+    pick_staking (es_sp e) = Ok (v, ot, oa) /\
+    cs = CSafePrice a :: CStkEnter v (sf_toks parts) :: rest /\
+    (rest = [] \/ exists toks, rest = [CLpMerge toks]) /\
+    registered cs = v /\
+    In (n, new) (s_attrs s') /\ o = [n; d_sfa new; es_bs e; merged_bl adds e] /\
+    (law_L3 v parts e = true -> d_sfa new = v + sum_sfa parts) /\
+    (adds = [] -> d_lpn new = k /\ d_lpa new = a) /\
+    (adds <> [] -> law_L2 a parts e = true -> d_lpa new = a + sum_lpa parts).
+Proof.
+  simpl. intros H. apply stake_spec in H. destruct H as (k & a & adds & s1 & s3 & s4 & parts & v & ot & oa & n & K).
+  destruct K as [Kp Ka Krel Kpick K13 Kmint K4 Kh Kf Ko Kc].
+  destruct (release_all_spec _ _ _ _ _ Krel) as (_ & _ & _ & Hall).
+  exists k, a, adds, parts, v, ot, oa, n, (merged_attr k a adds e),
+         (match adds with [] => [] | _ => [CLpMerge (lp_toks parts ++ [(k, a)])] end).
+  split; [exact Kp|]. split; [exact Hall|]. split; [exact Kpick|]. split; [exact Kc|].
+  split; [destruct adds; [left; reflexivity | right; eexists; reflexivity]|].
+  split; [rewrite Kc; destruct adds; simpl; lia|].
+  split.
+  { destruct K4 as (A & _). rewrite A, (mt_attrs _ _ _ _ _ Kmint). apply in_or_app. right. left. reflexivity. }
+  split; [rewrite Ko; unfold merged_attr; destruct adds; reflexivity|].
+  split; [unfold law_L3, merged_attr; intros HL; apply Z.eqb_eq in HL; destruct adds; exact HL|].
+  split; [intros ->; simpl; auto|].
+  intros Hne. unfold law_L2, merged_attr. intros HL. apply Z.eqb_eq in HL. destruct adds; [contradiction | exact HL].
+Qed.
+
+(** C15_safe (claim).  claimDualYield re-values the position: the pair is asked for the safe price of
+    the LP-farm part, and the staking-token side of the answer is the new value passed to
+    claimRewardsWithNewValue; under L4 the new dual-yield token is issued for exactly that value,
+    under L1 it records the same LP-farm amount as the part that was claimed. *)
+Theorem claim_safe s c oc pays e s' o cs :
+  step s (Claim c oc pays e) = Ok (s', o, cs) ->
+  exists n p a part v ot oa n' new,
+    pays = [(TK_DY, n, p)] /\ find_attr (s_attrs s) n = Some a /\ dy_part a p = Ok part /\
+    pick_staking (ec_sp e) = Ok (v, ot, oa) /\
+    cs = [CSafePrice (d_lpa part); CLpClaim (d_lpn a) (d_lpa part); CStkClaim (d_sfn a) p v] /\
+    registered cs = v - p /\
+    In (n', new) (s_attrs s') /\ o = [ec_rl e; ec_rs e; n'; d_sfa new] /\
+    (law_L4 v e = true -> d_sfa new = v) /\
+    (law_L1 part e = true -> d_lpa new = d_lpa part).
+Proof.
+  simpl. intros H. apply claim_spec in H. destruct H as (n & p & a & part & s1 & s2 & s3 & v & ot & oa & n' & K).
+  destruct K as [Kp R Kpick K12 Kmint K3 Kh Kf Ko Kc].
+  pose proof (dy_part_spec _ _ _ (rl_part _ _ _ _ _ _ _ R)) as (Pn & Psn & Psa & _).
+  exists n, p, a, part, v, ot, oa, n', (mkDA (ec_lpn e) (ec_lpa e) (ec_sfn e) (ec_sfa e)).
+  split; [exact Kp|]. split; [apply (rl_attr _ _ _ _ _ _ _ R)|]. split; [apply (rl_part _ _ _ _ _ _ _ R)|].
+  split; [exact Kpick|]. split; [rewrite Kc, Pn, Psn, Psa; reflexivity|].
+  split; [rewrite Kc, Psa; simpl; lia|].
+  split.
+  { destruct K3 as (A & _). rewrite A, (mt_attrs _ _ _ _ _ Kmint). apply in_or_app. right. left. reflexivity. }
+  split; [exact Ko|].
+  split; [unfold law_L4; intros HL; apply Z.eqb_eq in HL; exact HL | unfold law_L1; intros HL; apply Z.eqb_eq in HL; exact HL].
+Qed.
+
+(** ================================================================== 6. the interface laws on the callee models
+    L1-L3 are facts about the shared farm base functions (Model/Farm.v: enter / claim / merge are the
+    same code in farm, farm-with-locked-rewards and farm-staking), L6 about Model/Pair.v, L7 about
+    Model/SafePrice.v (characterised by C13).  L4 (claimRewardsWithNewValue) and L5 (unbond amount =
+    staking payment) are specific to farm-staking, for which there is no model here: they are checked
+    on every real answer by the correspondence run and the monitors only.
+    NOTE the composition "real farm |= law" is proved on the farm MODEL; it is not re-proved
+    end-to-end as one closed system. *)
+Module Laws.
+Import Model.Farm Proofs.FarmInv Model.Pair Model.SafePrice Proofs.SafePriceProofs.
+
+Definition pay_sum (ps : list (Z * Z)) : Z := fold_right (fun p acc => snd p + acc) 0 ps.
+
+Lemma psum_one ps : FarmInv.psum (fun _ => 1) ps = pay_sum ps.
+Proof. induction ps as [|[n x] t IH]; simpl; [reflexivity | rewrite IH; lia]. Qed.
+
+(** L1: claimRewards with one position returns a position token of the same amount *)
+Lemma L1_farm_claim f blk ep c n x b f' n' amt r :
+  Farm.ep_claim f blk ep c (n, x) [] b = Ok (f', [n'; amt; r]) -> amt = x.
+Proof.
+  unfold Farm.ep_claim. intros H.
+  destruct (active f); [|discriminate].
+  apply bind_ok in H. destruct H as (f1 & _ & H).
+  apply bind_ok in H. destruct H as (f2 & _ & H).
+  apply bind_ok in H. destruct H as (a & _ & H).
+  apply bind_ok in H. destruct H as (part & Hpart & H).
+  apply bind_ok in H. destruct H as (base & _ & H).
+  apply bind_ok in H. destruct H as (f3 & _ & H).
+  apply bind_ok in H. destruct H as (f4 & _ & H).
+  apply bind_ok in H. destruct H as (m & Hm & H).
+  simpl in Hm. inversion Hm; subst m. clear Hm.
+  destruct (mint_pos f4 _ c) as [f5 k]. inversion H; subst. simpl.
+  apply into_part_amt in Hpart. simpl in Hpart. tauto.
+Qed.
+
+(** L2: mergeFarmTokens returns a position token whose amount is the sum of the amounts paid in *)
+Lemma L2_farm_merge f blk ep c ps b f' n amt b' :
+  Farm.ep_merge f blk ep c ps b = Ok (f', [n; amt; b']) -> amt = pay_sum ps.
+Proof.
+  unfold Farm.ep_merge. intros H.
+  destruct (active f); [|discriminate].
+  destruct ps as [|first rest]; [discriminate|].
+  apply bind_ok in H. destruct H as (f0 & _ & H).
+  apply bind_ok in H. destruct H as (f1 & _ & H).
+  apply bind_ok in H. destruct H as (f2 & _ & H).
+  apply bind_ok in H. destruct H as (a & _ & H).
+  apply bind_ok in H. destruct H as (part & Hpart & H).
+  apply bind_ok in H. destruct H as (m0 & Hm & H).
+  destruct (mint_pos f2 _ c) as [f3 k]. inversion H; subst. simpl.
+  apply into_part_amt in Hpart. apply merge_payments_amt in Hm. rewrite psum_one in Hm.
+  destruct Hpart as [Hp _]. destruct Hm as [Hm' _]. rewrite Hm', Hp. destruct first. simpl. lia.
+Qed.
+
+(** L3: entering with [amt] farming tokens and additional positions returns a position token of
+    amount amt + sum of the positions (stakeFarmThroughProxy enters with the simulated payment) *)
+Lemma L3_farm_enter f blk ep c amt adds b f' n out b' :
+  Farm.ep_enter f blk ep c amt adds b = Ok (f', [n; out; b']) -> out = amt + pay_sum adds.
+Proof.
+  unfold Farm.ep_enter. intros H.
+  destruct (0 <? amt); [|discriminate].
+  apply bind_ok in H. destruct H as (f0 & _ & H).
+  destruct (active f0); [|discriminate].
+  apply bind_ok in H. destruct H as (f1 & _ & H).
+  apply bind_ok in H. destruct H as (f2 & _ & H).
+  apply bind_ok in H. destruct H as (f4 & _ & H).
+  apply bind_ok in H. destruct H as (m & Hm & H).
+  destruct (mint_pos _ m c) as [f6 k]. inversion H; subst.
+  apply merge_payments_amt in Hm. rewrite psum_one in Hm. simpl in Hm. tauto.
+Qed.
+
+(** L6: removeLiquidity returns exactly two payments, the first and the second pool token, both positive *)
+Lemma L6_pair_remove p c lp m1 m2 p' o e :
+  Pair.ep_remove p c lp m1 m2 = Ok (p', o, e) -> exists x1 x2, o = [x1; x2] /\ 0 < x1 /\ 0 < x2.
+Proof.
+  unfold Pair.ep_remove. intros H.
+  destruct ((0 <? m1) && (0 <? m2)); [|discriminate].
+  destruct (is_state_active (p_state p)); [|discriminate].
+  destruct (0 <? lp); [|discriminate].
+  apply bind_ok in H. destruct H as (p0 & _ & H).
+  apply bind_ok in H. destruct H as ([[p1 x1] x2] & Hrm & H).
+  destruct (p_r1 p1 * p_r2 p1 <=? p_r1 p * p_r2 p); [|discriminate].
+  apply bind_ok in H. destruct H as (p2 & _ & H).
+  apply bind_ok in H. destruct H as (p3 & _ & H). inversion H; subst.
+  exists x1, x2. split; [reflexivity|].
+  unfold pool_remove in Hrm.
+  destruct (lp + MINIMUM_LIQUIDITY <=? p_S p0); [|discriminate].
+  apply bind_ok in Hrm. destruct Hrm as (y1 & _ & Hrm).
+  destruct (0 <? y1) eqn:E1; [|discriminate].
+  destruct (m1 <=? y1); [|discriminate]. destruct (y1 <? p_r1 p0); [|discriminate].
+  apply bind_ok in Hrm. destruct Hrm as (y2 & _ & Hrm).
+  destruct (0 <? y2) eqn:E2; [|discriminate].
+  destruct (m2 <=? y2); [|discriminate]. destruct (y2 <? p_r2 p0); [|discriminate].
+  apply bind_ok in Hrm. destruct Hrm as (s' & _ & Hrm).
+  apply bind_ok in Hrm. destruct Hrm as (r1' & _ & Hrm).
+  apply bind_ok in Hrm. destruct Hrm as (r2' & _ & Hrm). inversion Hrm; subst.
+  apply Z.ltb_lt in E1, E2. auto.
+Qed.
+
+(** L7: what updateAndGetTokensForGivenPositionWithSafePrice answers, as Model/SafePrice.v has it
+    ([QLpDef]), tagged with the token codes of the two pool tokens *)
+Definition pair_safe_answer (N : Z) (us : list upd) (ev : env) (stk_first : bool) (liq : Z) : result two :=
+  do l <- run_query N (ring_of N us) ev (QLpDef liq);
+  match l with
+  | [x1; x2] => Ok (if stk_first then (TK_STK, x1, TK_OTH, x2) else (TK_OTH, x1, TK_STK, x2))
+  | _ => Err EGuard
+  end.
+
+Lemma default_offset_pos : 0 < DEFAULT_SAFE_PRICE_ROUNDS_OFFSET.
+Proof. vm_compute. reflexivity. Qed.
+
+(** by C13: the staking-token side of the answer is liq * (time-weighted average of the staking-token
+    reserve at the start of each round of the window) / (the same average of the LP supply), window =
+    the last min(default offset, rounds since the oldest retained observation) rounds *)
+Theorem safe_answer_twap N us ev o stk_first liq : 2 <= N ->
+  wf_calls us -> (forall u, In u us -> u_round u <= e_now ev) -> pos_upd (cur_upd ev) ->
+  get_oldest N (ring_of N us) = Ok o -> ob_round o < e_now ev ->
+  let s0 := e_now ev - Z.min DEFAULT_SAFE_PRICE_ROUNDS_OFFSET (e_now ev - ob_round o) in
+  let c := cur_upd ev in
+  exists r ot oa,
+    pair_safe_answer N us ev stk_first liq = Ok r /\ law_L6 r = true /\
+    pick_staking r =
+      Ok (liq * avg (if stk_first then u_r1 else u_r2) us c s0 (e_now ev) / avg u_S us c s0 (e_now ev), ot, oa).
+Proof.
+  intros HN Hwf Hnow Hc Ho Hlt s0 c.
+  pose proof default_offset_pos as Hoff.
+  destruct (offsets_spec N (ring_of N us) ev) as [_ Hdef].
+  pose proof (Hdef o Ho ltac:(lia)) as Hs. fold s0 in Hs.
+  assert (Hlp := lp_price_spec N HN us ev o s0 (e_now ev) liq Hwf Hnow Hc Ho ltac:(unfold s0; lia) ltac:(unfold s0; lia) ltac:(lia)).
+  cbv zeta in Hlp. fold c in Hlp.
+  unfold pair_safe_answer, run_query. rewrite Hs. cbn [bind]. rewrite Hlp. cbn [bind].
+  destruct stk_first; eexists; eexists; eexists; (split; [reflexivity|]); split; reflexivity.
+Qed.
+
+(** C15_safe, closed with L7: when the pair answers as Model/SafePrice.v says, the value a stake
+    registers in the staking farm is the time-weighted average valuation of the position's LP
+    amount — a function of the start-of-round reserves of the window (C13), not of an arbitrary
+    spot quote. *)
+Theorem stake_safe_twap N us ev o stk_first s c oc pays e s' out cs : 2 <= N ->
+  wf_calls us -> (forall u, In u us -> u_round u <= e_now ev) -> pos_upd (cur_upd ev) ->
+  get_oldest N (ring_of N us) = Ok o -> ob_round o < e_now ev ->
+  MetaStaking.step s (Stake c oc pays e) = Ok (s', out, cs) ->
+  forall k a adds, pays = (TK_LPF, k, a) :: adds ->
+  Ok (es_sp e) = pair_safe_answer N us ev stk_first a ->
+  let s0 := e_now ev - Z.min DEFAULT_SAFE_PRICE_ROUNDS_OFFSET (e_now ev - ob_round o) in
+  registered cs =
+    a * avg (if stk_first then u_r1 else u_r2) us (cur_upd ev) s0 (e_now ev) / avg u_S us (cur_upd ev) s0 (e_now ev).
+Proof.
+  intros HN Hwf Hnow Hc Ho Hlt Hstep k a adds Hp HL7 s0.
+  destruct (safe_answer_twap N us ev o stk_first a HN Hwf Hnow Hc Ho Hlt) as (r & ot & oa & Hr & _ & Hpick).
+  rewrite Hr in HL7. inversion HL7 as [Hsp]. clear HL7.
+  apply stake_safe in Hstep.
+  destruct Hstep as (k' & a' & adds' & parts & v & ot' & oa' & n & new & rest & Hp' & _ & Hpick' & _ & _ & Hreg & _).
+  rewrite Hp in Hp'. inversion Hp'; subst k' a' adds'. clear Hp'.
+  rewrite Hsp, Hpick in Hpick'. injection Hpick' as Hv _ _. rewrite Hreg, <- Hv. reflexivity.
+Qed.
+
+End Laws.
